@@ -24,11 +24,11 @@ var keyAlpha = []string{"a", "b", "id", "zone"}
 
 // mix: how one run behaves
 type mix struct {
-	name   string
-	fails  map[int]bool // iteration ids that fail
-	iters  uint64       // max-iterations
-	drops  bool         // two requests per tick for one slow worker: the second is dropped
-	setup  string       // ok|fail
+	name  string
+	fails map[int]bool // iteration ids that fail
+	iters uint64       // max-iterations
+	drops bool         // two requests per tick for one slow worker: the second is dropped
+	setup string       // ok|fail
 }
 
 var mixes = []mix{
